@@ -114,10 +114,22 @@ let run_model (c : case) =
 (* memo of the last case so that eval and oracle share one model run *)
 let last : (Sx.t * ((RZ.range, z) outcome * (RZ.range, z) state * (((n * RZ.range) list * (n * (z * RZ.range)) list) * nat) list)) option ref = ref None
 let last_heap : str ref = ref "(heap ok)"
+(* measured for the evidence: decision points, and decision points at which two or more queued packages share
+   the maximal priority (there the heap model, not the priority, determines the pick) *)
+let stat_picks = ref 0
+let stat_tie_picks = ref 0
+let count_ties log =
+  List.iter (fun ((_, q), _) ->
+    match q with
+    | [] -> ()
+    | _ ->
+      incr stat_picks;
+      let mx = List.fold_left (fun m (_, (z, _)) -> max m (int_of_z z)) min_int q in
+      if List.length (List.filter (fun (_, (z, _)) -> int_of_z z = mx) q) >= 2 then incr stat_tie_picks) log
 let model_of (cs : Sx.t) (c : case) =
   match !last with
   | Some (k, r) when k == cs -> r
-  | _ -> let ((((o, st), log), _consumed), hp) = run_model c in let r = (o, st, log) in last := Some (cs, r); last_heap := hp; r
+  | _ -> let ((((o, st), log), _consumed), hp) = run_model c in let r = (o, st, log) in last := Some (cs, r); last_heap := hp; count_ties log; r
 
 let store_sx (st : (RZ.range, z) state) : str =
   let entry (i : (RZ.range, z) incompat) =
